@@ -47,7 +47,7 @@ def c08_suites(tier):
 
 
 def c16_suites(tier):
-    return [system.CompositionSuite(), gens.GenHistorySuite(), glue.GlueSuite(), system.QueuedStartSuite()]
+    return [system.CompositionSuite(), gens.GenHistorySuite(), glue.GlueSuite(), system.QueuedStartSuite(), parsing.ParseSuite(only=("request_url", "parse_arg"))]
 
 
 def c09_suites(tier):
